@@ -87,7 +87,7 @@ macro_rules! c15_poll_step {
 // C15  bounded histories from new(): taps never add up
 // =====================================================================
 
-// @family prop=C15 name=c15_history macro=c15_history n=3 quick=0 thorough=0,1 tseeded=0 timeout=3000
+// @family prop=C15 name=c15_history macro=c15_history n=3 quick=0,1 thorough=0,1 tseeded=0 timeout=3000
 // @about public API only, slice = sample rate {0: 200 Hz (capacity 4, no settling skip, press after 4 in-range samples), 1: 500 Hz (capacity 9, press after 9), 2: 1 kHz (18)}: fresh controller, a history of 2*L+3 polls in which every sample is independently in range or out of range (symbolic choice per poll; values 0.25 / 1.0), edge getters polled at a symbolic position: after every poll finger_is_pressing() equals 'current unbroken in-range run >= L'; so isolated glitches and taps shorter than the capture time never produce a press however they are spaced; each edge getter returns true exactly once per change. The code is generic in the capacity; the larger capacities are covered by the inductive step c15_poll_step
 macro_rules! c15_history {
     ($name:ident, $k:expr) => {
